@@ -6,6 +6,7 @@ package main
 // well-formed batch.
 
 import (
+	"sort"
 	"os"
 	"bytes"
 	"encoding/json"
@@ -362,7 +363,26 @@ func runFaultCaseBars(h []Letter, bars []*colarspb.BatchArrowRecords, fc FaultCa
 		}
 	}
 	// the next well-formed batch must not crash the consumer either
-	_, _, pan2 := decodeWith(cons, h[len(h)-1].Sig, bars[len(h)-1])
+	last := h[len(h)-1]
+	got2, err2, pan2 := decodeCanon(cons, last, bars[len(h)-1])
+	// a fault that only relabels payloads or appends one leaves every IPC sub-stream in step
+	// (each payload was read by the reader of its schema id): the stream is still healthy, so a
+	// follower that is returned with success must be the telemetry that was encoded
+	inStep := len(fc.Faults) > 0
+	for _, f := range fc.Faults {
+		if f.Kind != "relabel" && f.Kind != "foreign" {
+			inStep = false
+		}
+	}
+	if inStep && pan2 == "" && err2 == nil && fc.Decoder == last.Sig {
+		if counters != nil {
+			counters["followers_compared_with_encoded_content"]++
+		}
+		want := canonOfLetter(last)
+		if !sameCanon(got2, want) {
+			viol = append(viol, fmt.Sprintf("the well-formed batch that follows the damaged one was returned with success but its content differs from what was encoded (%d decoded vs %d encoded records; first difference: %s)", len(got2), len(want), firstDiff(got2, want)))
+		}
+	}
 	if pan2 != "" && (!uncheckedIndexing(pan2) || os.Getenv("STREAMMC_EXEMPT_FOLLOWER_PANICS") == "") {
 		viol = append(viol, "consumer panicked on the well-formed batch that follows the damaged one: "+pan2)
 	} else if pan2 != "" && counters != nil {
@@ -560,4 +580,27 @@ func init() {
 		return map[string]any{"outcomes_of_damaged_batches": c, "evaluations": c["panic"] + c["error"] + c["success"],
 			"distinct_nontrivial": c["error"] + c["panic"], "rule": "a case is (stream prefix, victim batch, fault set, decoder); non-trivial = the damaged batch was not decoded successfully"}
 	}
+}
+
+func canonOfLetter(l Letter) []string {
+	var out []string
+	switch l.Sig {
+	case "traces":
+		out = CanonTraces(l.BuildTraces())
+	case "logs":
+		out = CanonLogs(l.BuildLogs())
+	default:
+		out = CanonMetrics(l.BuildMetrics())
+	}
+	sort.Strings(out)
+	return out
+}
+
+func firstDiff(a, b []string) string {
+	for i := 0; i < len(a) && i < len(b); i++ {
+		if a[i] != b[i] {
+			return trunc("decoded "+a[i]+" | encoded "+b[i], 500)
+		}
+	}
+	return "lengths differ"
 }
